@@ -164,9 +164,29 @@ def lean_sources():
                 yield os.path.join(root, f)
 
 
-def grep_forbidden() -> list[str]:
+def import_closure(modules: list[str]) -> list[str]:
+    """source files of the IrisVerif modules reachable from `modules` through `import IrisVerif.…` lines"""
+    seen, todo = {}, list(modules)
+    while todo:
+        m = todo.pop()
+        if m in seen:
+            continue
+        path = os.path.join(LEAN_DIR, *m.split(".")) + ".lean"
+        if not os.path.exists(path):
+            continue
+        seen[m] = path
+        for line in strip_lean_comments(open(path).read()).split("\n"):
+            mm = re.match(r"\s*(?:public\s+)?import\s+(IrisVerif\.\S+)", line)
+            if mm:
+                todo.append(mm.group(1))
+    return sorted(seen.values())
+
+
+def grep_forbidden(modules: list[str] | None = None) -> list[str]:
+    """forbidden tokens in the Lean sources this property depends on (its Props/bridge/driver modules and everything they
+    import); a use of `sorry` anywhere in that closure is also caught independently by the axiom audit (sorryAx)"""
     hits = []
-    for path in lean_sources():
+    for path in (import_closure(modules) if modules else lean_sources()):
         body = strip_lean_comments(open(path).read())
         for ln, line in enumerate(body.split("\n"), 1):
             if FORBIDDEN.search(line):
@@ -237,7 +257,7 @@ class Lean:
             raise InternalError(f"no theorems found in {props_file}")
         for x in self.extra_props:
             self.theorems += theorems_of(os.path.join(LEAN_DIR, "IrisVerif", "Props", f"{x}.lean"))
-        hits = grep_forbidden()
+        hits = grep_forbidden([f"IrisVerif.Props.{x}" for x in [self.prop] + self.extra_props] + [f"IrisVerif.Driver.{d}" for d in self.drivers])
         if hits:
             self.broken.append("forbidden token in Lean sources: " + "; ".join(hits[:5]))
         if not self.props_ok:
